@@ -537,7 +537,7 @@ func foldScenario(r *mc.Registry, maxLen int, byName map[string]*node) int {
 
 func main() {
 	mc.Main("C11", func(r *mc.Registry) {
-		r.Rule = "history: execution = (Monoid/Semigroup instance expression, sequence of histDepth steps) for EVERY sequence over the alphabet {Combine of each ordered pair of three operands, Empty, and for operands with a mutable referent a write of new contents in place} on ONE long-lived constructed instance; each result must equal (extensionally) what a freshly constructed instance returns for the current values; all library instances are constructed anew inside every execution. grammar/arity: execution = (Monoid/Semigroup instance expression, a, b, c) over the whole value domain of the instance's type (all triples); each execution evaluates Combine(Combine(a,b),c), Combine(a,Combine(b,c)), Combine(Empty,a), Combine(a,Empty) on the library's instance and compares with extensional equality (and, for the named instances, with the native operation); non-trivial = three different domain elements; distinct outcome = (instance, value of (a.b).c). fold: execution = (implementation of Reduce|FoldMap, monoid, input sequence) for ALL sequences up to the length bound over 4 values; every implementation (seq, iterator, list from a Seq, lazily produced list) must return the left-to-right loop acc = Combine(acc, x) from Empty (computed on independent operands without spare capacity), run twice on the same operands; non-trivial = at least two elements. In both parts the operands are built fresh inside every execution; the slice-like carriers (MergeSeq, MergeSlice and everything nested over them, Dual of them in the fold) get operands with spare capacity that are sub-slices of larger live arrays; all results are computed first and compared afterwards, every returned value is read again after the later Combine/fold calls (result-changed-later) and every operand including the backing array beyond its length is compared with its snapshot (operand-modified)"
+		r.Rule = "fold-long: execution = (implementation of Reduce|FoldMap|Fold, monoid String|MergeSeq|Sum, length n) with ONE position-tagged input per length 0..70 (thorough 300), compared with the plain left fold; history: execution = (Monoid/Semigroup instance expression, sequence of histDepth steps) for EVERY sequence over the alphabet {Combine of each ordered pair of three operands, Empty, and for operands with a mutable referent a write of new contents in place} on ONE long-lived constructed instance; each result must equal (extensionally) what a freshly constructed instance returns for the current values; all library instances are constructed anew inside every execution. grammar/arity: execution = (Monoid/Semigroup instance expression, a, b, c) over the whole value domain of the instance's type (all triples); each execution evaluates Combine(Combine(a,b),c), Combine(a,Combine(b,c)), Combine(Empty,a), Combine(a,Empty) on the library's instance and compares with extensional equality (and, for the named instances, with the native operation); non-trivial = three different domain elements; distinct outcome = (instance, value of (a.b).c). fold: execution = (implementation of Reduce|FoldMap, monoid, input sequence) for ALL sequences up to the length bound over 4 values; every implementation (seq, iterator, list from a Seq, lazily produced list) must return the left-to-right loop acc = Combine(acc, x) from Empty (computed on independent operands without spare capacity), run twice on the same operands; non-trivial = at least two elements. In both parts the operands are built fresh inside every execution; the slice-like carriers (MergeSeq, MergeSlice and everything nested over them, Dual of them in the fold) get operands with spare capacity that are sub-slices of larger live arrays; all results are computed first and compared afterwards, every returned value is read again after the later Combine/fold calls (result-changed-later) and every operand including the backing array beyond its length is compared with its snapshot (operand-modified)"
 		r.Assumptions = []string{
 			"float instances: associativity is excluded (property); identity and the meaning of the name are compared with ==, NaN-producing operands are not in the domain",
 			"integer arithmetic is modulo overflow (Go semantics) in the reference as well",
@@ -578,6 +578,11 @@ func main() {
 		if r.Thorough() {
 			histDepth = 4
 		}
+		longLen := 70
+		if r.Thorough() {
+			longLen = 300
+		}
+		longN := longScenario(r, longLen)
 		histNodes := append(append([]*node{}, grammarNodes...), arityNodes...)
 		mutableNodes := historyScenario(r, histNodes)
 
@@ -594,6 +599,8 @@ func main() {
 		r.Extra["bounds"] = map[string]any{
 			"instance_expressions":                     len(grammarNodes) + len(arityNodes),
 			"nesting_depth":                            2,
+			"fold_long_cases":                          longN,
+			"fold_long_max_length":                     longLen,
 			"history_depth":                            histDepth,
 			"history_instances":                        len(histNodes),
 			"history_instances_with_mutable_referents": mutableNodes,
